@@ -25,7 +25,8 @@ def per_step(k, before, call, after, st, sec):
 
 def jobs(tier, seed):
     # only histories whose last call is a frame/column call need to be judged at the last step, but every step is judged
-    return hist_jobs(tier, seed, finish=0)
+    # (start state 7: channel labels that repeat - reachable because the first frame of an undeclared object names the channels)
+    return hist_jobs(tier, seed, finish=0, extra_starts=(7,))
 def run_job(engine, job): return explore(engine, job, ID, per_step)
 
 def native_confirm(nat, v):
